@@ -76,9 +76,32 @@ func c19Agree(m *Map[string, int], ref *c19Model) {
 }
 
 // c19Op applies one symbolic operation to both the real map and the model.
-func c19Op(m *Map[string, int], ref *c19Model) (*Map[string, int], *c19Model) {
+func c19Op(m *Map[string, int], ref *c19Model, ops int) (*Map[string, int], *c19Model) {
 	key := c19Key("key")
-	switch v.Choose(9) {
+	// operations 0-8: the in-memory API; 9, 10: JSON decode / encode
+	switch v.Choose(ops) {
+	case 9: // UnmarshalJSON of a symbolic document (members may repeat a key, or name keys already present) into the current map
+		doc := v.J{Kind: v.JObject}
+		nr := &c19Model{keys: append([]string{}, ref.keys...), vals: append([]int{}, ref.vals...)}
+		members := v.Choose(4)
+		for i := 0; i < members; i++ {
+			dk := c19Key("dk")
+			dv := v.Int("dv", 0, 100)
+			doc.Keys = append(doc.Keys, dk)
+			doc.Vals = append(doc.Vals, v.J{Kind: v.JNumber, Num: int64(dv)})
+			nr.set(dk, dv)
+		}
+		err := m.UnmarshalJSON(v.JSONBytes(doc))
+		v.Assert(err == nil, "UnmarshalJSON rejects a JSON object of integers")
+		return m, nr
+	case 10: // MarshalJSON, then UnmarshalJSON into a fresh map: same entries in the same order
+		out, err := m.MarshalJSON()
+		v.Assert(err == nil, "MarshalJSON fails")
+		c19Agree(m, ref) // the receiver is untouched
+		back := New[string, int]()
+		err = back.UnmarshalJSON(out)
+		v.Assert(err == nil, "MarshalJSON output is not a JSON object its own decoder accepts")
+		return back, ref
 	case 0: // Set
 		val := v.Int("nv", 0, 100)
 		m.Set(key, val)
@@ -104,6 +127,7 @@ func c19Op(m *Map[string, int], ref *c19Model) (*Map[string, int], *c19Model) {
 			}
 		}
 		c19Agree(m, ref) // the receiver is untouched
+		v.Assert(f != m && v.SharedHeap(f, m) == "", "Filter returns a map that shares its records or its order with the receiver")
 		return f, nr
 	case 4: // Map with an arbitrary affine callback
 		add := v.Int("add", 0, 5)
@@ -122,6 +146,7 @@ func c19Op(m *Map[string, int], ref *c19Model) (*Map[string, int], *c19Model) {
 			}
 		}
 		c19Agree(m, ref)
+		v.Assert(f != m && v.SharedHeap(f, m) == "", "Map returns a map that shares its records or its order with the receiver")
 		return f, nr
 	case 5: // Sort ascending by key (stable)
 		m.Sort(SortStrings)
@@ -194,7 +219,7 @@ func VerifC19Step() {
 		ref.vals = append(ref.vals, val)
 	}
 	v.Excuse("empty-map", n == 0)
-	m, ref = c19Op(m, ref)
+	m, ref = c19Op(m, ref, 11)
 	c19Agree(m, ref)
 }
 
@@ -209,7 +234,49 @@ func VerifC19History() {
 	ref := &c19Model{}
 	for i := 0; i < steps; i++ {
 		v.Excuse("empty-map", len(ref.keys) == 0)
-		m, ref = c19Op(m, ref)
+		m, ref = c19Op(m, ref, 9)
 		c19Agree(m, ref)
 	}
+}
+
+// VerifC19JSONHistory: short histories that include the JSON operations.
+func VerifC19JSONHistory() {
+	steps := 2
+	if v.Tier() > 0 {
+		steps = 3
+	}
+	m := New[string, int]()
+	ref := &c19Model{}
+	for i := 0; i < steps; i++ {
+		v.Excuse("empty-map", len(ref.keys) == 0)
+		m, ref = c19Op(m, ref, 11)
+		c19Agree(m, ref)
+	}
+}
+
+// VerifC19JSONDocs: documents that are not an object of integers are rejected with an error
+// (never a panic), whatever the state of the map.
+func VerifC19JSONDocs() {
+	m := New[string, int]()
+	if v.Bool("nonempty") {
+		m.Set(c19Key("k"), v.Int("v", 0, 100))
+	}
+	var doc v.J
+	switch v.Choose(6) {
+	case 0:
+		doc = v.J{Kind: v.JNull}
+	case 1:
+		doc = v.J{Kind: v.JNumber, Num: int64(v.Int("n", 0, 9))}
+	case 2:
+		doc = v.J{Kind: v.JString, Str: c19Key("s")}
+	case 3:
+		doc = v.J{Kind: v.JArray, Arr: []v.J{{Kind: v.JNumber, Num: 1}}}
+	case 4: // a member whose value is not a number
+		doc = v.J{Kind: v.JObject, Keys: []string{c19Key("dk")}, Vals: []v.J{{Kind: v.JString, Str: "x"}}}
+	default: // a fractional number for an int value
+		doc = v.J{Kind: v.JObject, Keys: []string{c19Key("dk")}, Vals: []v.J{{Kind: v.JNumber, Num: 1, Frac: true}}}
+	}
+	err := m.UnmarshalJSON(v.JSONBytes(doc))
+	v.Assert(err != nil, "UnmarshalJSON accepts a document that is not a JSON object of integers")
+	v.Assert(len(m.records) == len(m.order), "invariant: records and order have different sizes")
 }
